@@ -187,3 +187,8 @@ declare void @ext()
 @x = global double frem (double bitcast (i64 ptrtoint (i32* @g to i64) to double), double 1.0)
 ;;; ATOM const/ppc-fp128-negative-zero-low-double
 @a = global ppc_fp128 0xM3FF00000000000008000000000000000
+;;; ATOM const/expr-aggregate-llvm14-only
+@a = global i32 extractvalue ({ i32, i8 } { i32 1, i8 2 }, 0)
+@b = global { i32, i8 } insertvalue ({ i32, i8 } { i32 1, i8 2 }, i32 7, 0)
+@g = global i32 0
+@c = global i64 extractvalue ({ i64, i8 } { i64 ptrtoint (i32* @g to i64), i8 2 }, 0)
